@@ -10,7 +10,7 @@ THEOREMS = ["Rspirv.Props.C10.C10_literal", "Rspirv.Props.C10.litOne_spec", "Rsp
             "Rspirv.Props.C10.resolve_cons", "Rspirv.Props.C10.C10_track_value", "Rspirv.Props.C10.C10_track_noid",
             "Rspirv.Props.C10.C10_fresh", "Rspirv.Props.C10.C10_constant_uses_rtype"]
 NEEDS = ("header", "core", "decode", "operand_enum", "asm_arms", "parse_operand", "operands")
-WIDTHS = [8, 16, 32, 64, 128, 7, 0, 24, 48, 65, 1 << 31]
+WIDTHS = [8, 16, 32, 64, 64, 32, 1, 7, 9, 24, 31, 33, 48, 63, 65, 128, 0, 0x7fffffff, 0x80000000, 0xffffffe0, 0xffffffe1, 0xffffffff]
 
 
 def history(g, rnd, ids):
